@@ -263,7 +263,9 @@ def run(ctx):
             m1, m2 = gama.adjusted_map(res), gama.adjusted_map(r2)
             for pid in m1:
                 for c in "xyz":
-                    if c in m1[pid] and abs(m1[pid][c] - m2[pid][c]) > 3e-6:
+                    if c in m1[pid] and m2.get(pid, {}).get(c) is None:
+                        d2.append("adjusted %s %s = %.7f is missing in the rescaled run (point removed)" % (pid, c, m1[pid][c]))
+                    elif c in m1[pid] and abs(m1[pid][c] - m2[pid][c]) > 3e-6:
                         d2.append("adjusted %s %s changed: %.7f vs %.7f" % (pid, c, m1[pid][c], m2[pid][c]))
             fac = 1.0   # m0^2 Q: the weights scale by k^2, the cofactors by 1/k^2, the reference variance by k^2 (apriori) or not at all
             if res["cov"] and r2["cov"]:
